@@ -206,6 +206,14 @@ def check(tier, seed):
         few = ('sse2', 'avx2', 'avx512')   # macros without ISA-specific arms: three ISAs in the quick tier
         tcfgs = [Config(isa, macros=(m,)) for m in TARGETED for isa in ALL_ISAS if not (m == 'FASTOR_USE_HADD' and isa == 'scalar') and (tier != 'quick' or m in ('FASTOR_USE_HADD', 'FASTOR_USE_VECTORISED_EXPR_ASSIGN') or isa in few)]
         R.run_all(tw, tcfgs, chunk=60)
+        # block-size macros select different interior kernels (numSIMDCols = 1..5) of the blocked matmul / tmatmul: every value on every
+        # vector ISA, on the shapes large enough to enter those kernels
+        big = [w for w in c01.witnesses(tier, seed) if w.family == 'matmul.matmul' and w.params['type'] in ('f32', 'f64', 'i32') and w.params['M'] >= 8 and w.params['N'] >= 16 and w.params['M'] * w.params['N'] <= 1300]
+        big += [w for w in c17.witnesses(tier, seed) if w.params.get('M', 0) >= 9 and w.params.get('N', 0) >= 20 and w.params['type'] in ('f32', 'f64')][::5 if tier == 'quick' else 1]
+        big = group_sort(big)
+        bcfgs = [Config(isa, macros=('FASTOR_MATMUL_OUTER_BLOCK_SIZE=%d' % o, 'FASTOR_MATMUL_INNER_BLOCK_SIZE=%d' % i)) for isa in ALL_ISAS if isa != 'scalar'
+                 for (o, i) in ([(1, 4), (2, 5), (3, 1), (2, 3), (1, 2)] if tier == 'quick' else [(o, i) for o in (1, 2, 3) for i in (1, 2, 3, 4, 5)])]
+        R.run_all(big, bcfgs, chunk=60)
         return finish('C06', tier, seed, R, 'other',
                       rule='(a) acceptance: a covering slice of the witness programs of every other property (%d programs) is type-checked with clang++ -fsyntax-only under a grid of %d cells of {scalar, SSE2, SSE4.2, AVX, AVX2+FMA, AVX-512F, AVX-512, -mno-sse} x {C++14, C++17} x {NDEBUG, debug, runtime checks}; a program rejected under some cells and accepted under others is a violation naming the first diagnostic inside the repository. (b) values: the same programs are lowered and interpreted under %d further configurations — -O0/-O1/-O3, both standards, assertions on, and every documented tuning macro one at a time (FASTOR_USE_HADD, matmul and transpose block sizes 1..5, op-min off, FASTOR_KEEP_DP_FIXED, vectorised view assignment, zero initialisation, specialised constructors off, vectorisation off) — and each final state is compared with the witness oracle (EXACT for integer/boolean cells, ALGEBRAIC with the rounding premises for floating products/sums): agreement of every configuration with one oracle is agreement between configurations.' % (len(set(w.wit_src for w in W)), ncells, len(cfgs)),
                       trusted=['clang-14 front end and code generation at every optimisation level', 'LLVM IR semantics as modelled by irflow', 'x86 lane table', 'the oracles of the other properties'],
